@@ -282,14 +282,25 @@ def run_impl(ops, base, timeout=120, exe=None, env=None, sub="run"):
             out.pop()
         status = "timeout"
         stderr = ""
-    # `merge` reports the visiting order of the older files (an input of the model): split it off
+    # nondeterministic / unmodelled choices of the real run become inputs of the model: the order in
+    # which Merge visits the older files, the shard a key hashes to, the actual shard count
     global LAST_MERGE_ORDERS
     orders = {}
     for i, o in enumerate(out):
-        if i < len(ops) and ops[i] == "merge" and " order=" in o:
+        if i >= len(ops):
+            break
+        if ops[i] == "merge" and " order=" in o:
             res, order = o.split(" order=", 1)
             out[i] = res
-            orders[i] = order
+            orders[i] = "merge order=" + order
+        elif ops[i].startswith("ix.put ") and " shard=" in o:
+            res, sh = o.split(" shard=", 1)
+            out[i] = res
+            orders[i] = ops[i] + " " + sh
+        elif ops[i].startswith("ix.new ") and " cap=" in o:
+            res, cap = o.split(" cap=", 1)
+            out[i] = res
+            orders[i] = "ix.new %s %s" % (ops[i].split()[1], cap)
     LAST_MERGE_ORDERS = orders
     if len(out) < len(ops):
         why = "died:" + status
@@ -306,7 +317,7 @@ LAST_MERGE_ORDERS = {}
 def model_ops(ops, orders=None):
     """op lines for the model: nondeterministic choices of the real run become inputs"""
     orders = LAST_MERGE_ORDERS if orders is None else orders
-    return [("merge order=" + orders[i]) if (op == "merge" and i in orders) else op for i, op in enumerate(ops)]
+    return [orders.get(i, op) for i, op in enumerate(ops)]
 
 
 def run_model(ops, timeout=300):
